@@ -244,3 +244,225 @@ func runE2ECase(bin string, c e2eCase) (string, map[string]int, error) {
 	return fmt.Sprintf("{| uc_entries := %s; uc_obs := %s |}", coqfmt.List("(bool * rx)", ents),
 		coqfmt.List("(str * list bool * bool)", obs)), stats, nil
 }
+
+// ---------------------------------------------------------------- two lists at once
+
+type routeCase struct {
+	Deny    []entry  `json:"deny"`
+	Direct  []entry  `json:"direct"`
+	Targets []target `json:"targets"` // authority WITHOUT port: the harness appends the origin's port
+}
+
+// origin: answers every request with "ORIGIN"
+func serveOrigin(l net.Listener) {
+	for {
+		c, err := l.Accept()
+		if err != nil {
+			return
+		}
+		go func(c net.Conn) {
+			defer c.Close()
+			c.SetDeadline(time.Now().Add(10 * time.Second))
+			br := bufio.NewReader(c)
+			for {
+				line, err := br.ReadString('\n')
+				if err != nil || strings.TrimRight(line, "\r\n") == "" {
+					break
+				}
+			}
+			fmt.Fprintf(c, "HTTP/1.1 200 OK\r\nContent-Length: 6\r\nConnection: close\r\n\r\nORIGIN")
+		}(c)
+	}
+}
+
+// route of one plain request: 0 denied, 1 reached the origin directly, 2 reached the upstream, 9 anything else
+func probeRoute(proxyAddr, authority string) int {
+	c, err := net.DialTimeout("tcp", proxyAddr, 2*time.Second)
+	if err != nil {
+		return 9
+	}
+	defer c.Close()
+	c.SetDeadline(time.Now().Add(5 * time.Second))
+	fmt.Fprintf(c, "GET http://%s/ HTTP/1.1\r\nHost: %s\r\nConnection: close\r\n\r\n", authority, authority)
+	br := bufio.NewReader(c)
+	line, err := br.ReadString('\n')
+	if err != nil {
+		return 9
+	}
+	if strings.HasPrefix(line, "HTTP/1.1 403") {
+		return 0
+	}
+	if !strings.HasPrefix(line, "HTTP/1.1 200") {
+		return 9
+	}
+	rest := make([]byte, 4096)
+	n, _ := br.Read(rest)
+	for n < len(rest) {
+		k, err := br.Read(rest[n:])
+		n += k
+		if err != nil {
+			break
+		}
+	}
+	switch {
+	case strings.HasSuffix(string(rest[:n]), "ORIGIN"):
+		return 1
+	case strings.HasSuffix(string(rest[:n]), "UP"):
+		return 2
+	}
+	return 9
+}
+
+// targets that can be dialled here without DNS: loopback names and literals
+var routeHosts = []target{{"127.0.0.1", "127.0.0.1", false}, {"127.0.0.2", "127.0.0.2", false}, {"localhost", "localhost", false},
+	{"LOCALHOST", "LOCALHOST", false}, {"[::1]", "::1", false}, {"127.0.0.3", "127.0.0.3", false}}
+
+func routeRulePool() [][]Item {
+	bol, eol := Item{K: "bol"}, Item{K: "eol"}
+	cat := func(parts ...[]Item) []Item {
+		var out []Item
+		for _, p := range parts {
+			out = append(out, p...)
+		}
+		return out
+	}
+	return [][]Item{
+		cat([]Item{bol}, lit2("127.")), cat(lit2(".0.1"), []Item{eol}), lit2("localhost"), cat([]Item{sf(1, 0, 0)}, lit2("localhost")),
+		cat([]Item{bol}, lit2("::1"), []Item{eol}), cat([]Item{bol}, lit2("127.0.0.2"), []Item{eol}), lit2("0.0"), lit2("host"),
+		cat(lit2(".3"), []Item{eol}), lit2("["), cat([]Item{bol}, lit2("LOCAL")), {Item{K: "any"}},
+	}
+}
+
+func ensureInclude(es []entry) []entry {
+	for _, e := range es {
+		if !e.Exclude {
+			return es
+		}
+	}
+	if len(es) > 0 {
+		es[0].Exclude = false
+	}
+	return es
+}
+
+func genRouteCase(r *rng.R, i int) routeCase {
+	pool := routeRulePool()
+	c := routeCase{Targets: routeHosts}
+	switch i {
+	case 0: // the same rule text, same mark, in both lists; an exclude lifts the denial
+		c.Deny = []entry{{false, pool[0]}, {true, pool[1]}}
+		c.Direct = []entry{{false, pool[0]}}
+	case 1: // the same exclude in both lists
+		c.Deny = []entry{{false, pool[2]}, {true, pool[6]}}
+		c.Direct = []entry{{false, pool[11]}, {true, pool[6]}}
+	case 2: // only direct-domains
+		c.Direct = []entry{{false, pool[4]}, {false, pool[3]}}
+	default:
+		for j, n := 0, r.Intn(3); j < n; j++ {
+			c.Deny = append(c.Deny, entry{Exclude: r.Chance(1, 3), Rule: pool[r.Intn(len(pool))]})
+		}
+		for j, n := 0, 1+r.Intn(3); j < n; j++ {
+			c.Direct = append(c.Direct, entry{Exclude: r.Chance(1, 3), Rule: pool[r.Intn(len(pool))]})
+		}
+		if len(c.Deny) > 0 && r.Chance(2, 3) { // share an entry (text and mark) between the lists
+			c.Direct = append(c.Direct, c.Deny[r.Intn(len(c.Deny))])
+		}
+		c.Deny, c.Direct = ensureInclude(c.Deny), ensureInclude(c.Direct)
+	}
+	return c
+}
+
+func runRouteCase(bin string, c routeCase) (string, map[string]int, error) {
+	stats := map[string]int{}
+	ul, err := net.Listen("tcp", "127.0.0.1:0")
+	if err != nil {
+		return "", nil, err
+	}
+	defer ul.Close()
+	go serveUpstream(ul)
+	ol, err := net.Listen("tcp", ":0") // all loopback addresses, IPv4 and IPv6
+	if err != nil {
+		return "", nil, err
+	}
+	defer ol.Close()
+	go serveOrigin(ol)
+	_, oport, _ := net.SplitHostPort(ol.Addr().String())
+	addr, api := freeAddr(), freeAddr()
+	args := []string{"run", "--address", addr, "--api-address", api, "--proxy", "http://" + ul.Addr().String(), "--log-level", "error",
+		"--proxy-localhost", "allow"}
+	side := func(flagName string, es []entry) ([]*regexp.Regexp, []string, error) {
+		var alone []*regexp.Regexp
+		var ents []string
+		for _, e := range es {
+			t := Text(e.Rule)
+			re, ok := tryCompile(t)
+			if !ok {
+				return nil, nil, fmt.Errorf("e2e rule %q does not compile", t)
+			}
+			alone = append(alone, re)
+			if e.Exclude {
+				t = "-" + t
+			}
+			args = append(args, "--"+flagName+"="+t)
+			ents = append(ents, fmt.Sprintf("(%s, %s)", coqfmt.Bool(e.Exclude), Coq(e.Rule)))
+		}
+		return alone, ents, nil
+	}
+	aDeny, eDeny, err := side("deny-domains", c.Deny)
+	if err != nil {
+		return "", nil, err
+	}
+	aDirect, eDirect, err := side("direct-domains", c.Direct)
+	if err != nil {
+		return "", nil, err
+	}
+	cmd := exec.Command(bin, args...)
+	cmd.Stdout, cmd.Stderr = os.Stderr, os.Stderr
+	if err := cmd.Start(); err != nil {
+		return "", nil, err
+	}
+	exited := make(chan struct{})
+	go func() { cmd.Wait(); close(exited) }()
+	defer func() {
+		cmd.Process.Kill()
+		<-exited
+	}()
+	up := false
+wait:
+	for i := 0; i < 100; i++ {
+		select {
+		case <-exited: // the binary refused the flags
+			break wait
+		default:
+		}
+		if conn, err := net.DialTimeout("tcp", addr, 100*time.Millisecond); err == nil {
+			conn.Close()
+			up = true
+			break
+		}
+		time.Sleep(50 * time.Millisecond)
+	}
+	var obs []string
+	if up {
+		for _, t := range c.Targets {
+			auth := t.Authority + ":" + oport
+			code := probeRoute(addr, auth)
+			stats[[]string{"denied", "direct", "upstream"}[min(code, 2)]+map[bool]string{true: "", false: "?"}[code <= 2]]++
+			if code > 2 {
+				continue
+			}
+			var ad, ar []string
+			for _, re := range aDeny {
+				ad = append(ad, coqfmt.Bool(re.MatchString(t.Bare)))
+			}
+			for _, re := range aDirect {
+				ar = append(ar, coqfmt.Bool(re.MatchString(t.Bare)))
+			}
+			obs = append(obs, fmt.Sprintf("(%s, %s, %s, %d)", coqfmt.Str(t.Bare), coqfmt.List("bool", ad), coqfmt.List("bool", ar), code))
+		}
+	} else {
+		stats["not-started"]++
+	}
+	return fmt.Sprintf("{| vc_deny := %s; vc_direct := %s; vc_started := %s; vc_obs := %s |}", coqfmt.List("(bool * rx)", eDeny),
+		coqfmt.List("(bool * rx)", eDirect), coqfmt.Bool(up), coqfmt.List("(str * list bool * list bool * N)", obs)), stats, nil
+}
